@@ -443,3 +443,458 @@ class RMul(Mul):
 
     def exceptional(self, S):
         return {}
+
+
+def boundary_one(t):
+    return z3.And(lst_get(t.ranks, 0) == 1, lst_get(t.ranks, zi(t.order)) == 1)
+
+
+def dims_equal(a, b):
+    d = zi(a.order)
+    return z3.And(zi(a.row_dims.length) == zi(b.row_dims.length), zi(a.col_dims.length) == zi(b.col_dims.length),
+                  same_ints(a.row_dims, b.row_dims, d), same_ints(a.col_dims, b.col_dims, d))
+
+
+def fresh_result(S, res):
+    yield 'returns-TT', isinstance(res, STT)
+    if isinstance(res, STT):
+        yield 'wf(result)', wf(res)
+        yield 'result-object-and-lists-fresh', meta_fresh(res, S.mark0)
+        yield 'result-buffers-fresh', cores_fresh(res, S.mark0)
+        yield 'result-lists-distinct', lists_distinct(res)
+
+
+@register
+class Add(Contract):
+    name, func = 'TT.__add__', '__add__'
+    props = ('C01', 'C06')
+    list_kinds = {'cores': 'arr'}
+
+    def instances(self):
+        return [{'other': 'TT'}, {'other': 'not-TT'}]
+
+    def setup(self, ex, state, inst):
+        m0 = ex.ctx.mark0
+        other = mk_tt(state, 'tt_add', m0) if inst['other'] == 'TT' else 17
+        return {'self': mk_tt(state, 'self', m0), 'tt_add': other}
+
+    def requires(self, S):
+        me, o = S.a['self'], S.a['tt_add']
+        # derived from the block assignments: the first/last core of both operands occupy the single boundary block
+        yield 'boundary-ranks-1(self)', boundary_one(me)
+        if isinstance(o, STT):
+            yield 'boundary-ranks-1(tt_add)', boundary_one(o)
+
+    def exceptional(self, S):
+        me, o = S.o['self'], S.o['tt_add']
+        if not isinstance(o, STT):
+            return {'TypeError': True, 'ValueError': False}
+        return {'TypeError': False, 'ValueError': z3.Not(dims_equal(me, o))}
+
+    def ensures(self, S, res):
+        me, o = S.o['self'], S.o['tt_add']
+        yield from fresh_result(S, res)
+        if not isinstance(res, STT):
+            return
+        d = zi(me.order)
+        yield 'order', zi(res.order) == d
+        yield 'dims', z3.And(same_ints(res.row_dims, me.row_dims, d), same_ints(res.col_dims, me.col_dims, d))
+        yield 'ranks-add-up', z3.And(lst_get(res.ranks, 0) == 1, lst_get(res.ranks, d) == 1,
+                                     FA(1, d, lambda j: lst_get(res.ranks, j) == lst_get(me.ranks, j) + lst_get(o.ranks, j)))
+        yield 'kind', FA(0, d, lambda j: lst_get(res.cores, j).cplx == z3.Or(lst_get(me.cores, j).cplx, lst_get(o.cores, j).cplx))
+
+    def canary(self, S, res):
+        return lst_get(res.ranks, 0) == 2 if isinstance(res, STT) else None
+
+    def invariant(self, key, inst):
+        if key != 'i in range(order)':
+            return None
+
+        def inv(V, i, k):
+            cores, ranks, me, o = V['cores'], V['ranks'], V.old('self'), V.old('tt_add')
+            yield 'len', zi(cores.length) == i
+            yield 'fresh-list', cores.ref >= V.mark0
+            yield 'cores', FA(0, i, lambda j: z3.And(
+                core_shape_ok(lst_get(cores, j), lst_get(ranks, j), lst_get(me.row_dims, j), lst_get(me.col_dims, j), lst_get(ranks, j + 1)),
+                lst_get(cores, j).buf >= V.mark0,
+                lst_get(cores, j).cplx == z3.Or(lst_get(me.cores, j).cplx, lst_get(o.cores, j).cplx)))
+        return inv
+
+    def effect(self, ex, state, A, inst, line):
+        me, o = A['self'].snapshot(), A['tt_add'].snapshot()
+        for t in (me, o):
+            for l in (t.cores, t.ranks, t.row_dims, t.col_dims):
+                l.to_fn()
+        d = zi(me.order)
+        base = state.mark
+        state.mark = z3.simplify(state.mark + d)
+        rk = lambda j: z3.If(z3.Or(j <= 0, j >= d), z3.IntVal(1), me.ranks.fn(j) + o.ranks.fn(j))  # noqa
+        cores = SList(state.alloc(), d, kind='arr', fn=lambda j: SArr([rk(j), me.row_dims.fn(j), me.col_dims.fn(j), rk(j + 1)],
+                                                                      z3.Or(me.cores.fn(j).cplx, o.cores.fn(j).cplx), base + j, True, ndim=4, own=True))
+        return build_tt_from_cores(state, cores, d)
+
+
+@register
+class Sub(Contract):
+    name, func = 'TT.__sub__', '__sub__'
+    props = ('C01', 'C06')
+
+    def setup(self, ex, state, inst):
+        m0 = ex.ctx.mark0
+        return {'self': mk_tt(state, 'self', m0), 'tt_sub': mk_tt(state, 'tt_sub', m0)}
+
+    def requires(self, S):
+        me, o = S.a['self'], S.a['tt_sub']
+        yield 'boundary-ranks-1(self)', boundary_one(me)
+        yield 'boundary-ranks-1(tt_sub)', boundary_one(o)
+        # the ValueError of the sum propagates; exception propagation is outside the subset, so equal dims are required
+        yield 'dims-equal', dims_equal(me, o)
+
+    def ensures(self, S, res):
+        me, o = S.o['self'], S.o['tt_sub']
+        yield from fresh_result(S, res)
+        if not isinstance(res, STT):
+            return
+        d = zi(me.order)
+        yield 'order', zi(res.order) == d
+        yield 'dims', z3.And(same_ints(res.row_dims, me.row_dims, d), same_ints(res.col_dims, me.col_dims, d))
+        yield 'ranks-add-up', z3.And(lst_get(res.ranks, 0) == 1, lst_get(res.ranks, d) == 1,
+                                     FA(1, d, lambda j: lst_get(res.ranks, j) == lst_get(me.ranks, j) + lst_get(o.ranks, j)))
+
+    def canary(self, S, res):
+        return lst_get(res.ranks, 0) == 2 if isinstance(res, STT) else None
+
+    def effect(self, ex, state, A, inst, line):
+        return REG['TT.__add__'].effect(ex, state, {'self': A['self'], 'tt_add': A['tt_sub']}, {}, line)
+
+
+@register
+class Element(Contract):
+    """assumed at call sites only (value-level function: contents are dropped by E1)"""
+    name, func = 'TT.element', 'element'
+    props = ()
+    verify = False
+
+    def effect(self, ex, state, A, inst, line):
+        return SNum('element', cplx=fresh('elem_cx', 'bool'))
+
+
+@register
+class MatMul(Contract):
+    name, func = 'TT.__matmul__', '__matmul__'
+    props = ('C01', 'C06')
+
+    def instances(self):
+        return [{'other': 'TT'}, {'other': 'not-TT'}]
+
+    def setup(self, ex, state, inst):
+        m0 = ex.ctx.mark0
+        other = mk_tt(state, 'tt_mul', m0) if inst['other'] == 'TT' else 17
+        return {'self': mk_tt(state, 'self', m0), 'tt_mul': other}
+
+    def requires(self, S):
+        me, o = S.a['self'], S.a['tt_mul']
+        if isinstance(o, STT):
+            # derived from the code: cores are paired index by index over range(self.order)
+            yield 'same-order', zi(me.order) == zi(o.order)
+
+    def _cols_match(self, me, o):
+        d = zi(me.order)
+        return z3.And(zi(me.col_dims.length) == zi(o.row_dims.length), same_ints(me.col_dims, o.row_dims, d))
+
+    def exceptional(self, S):
+        me, o = S.o['self'], S.o['tt_mul']
+        if not isinstance(o, STT):
+            return {'TypeError': True, 'ValueError': False}
+        return {'TypeError': False, 'ValueError': z3.Not(self._cols_match(me, o))}
+
+    def _all_one(self, me, o):
+        d = zi(me.order)
+        return z3.And(FA(0, d, lambda j: lst_get(me.row_dims, j) == 1), FA(0, d, lambda j: lst_get(o.col_dims, j) == 1))
+
+    def ensures(self, S, res):
+        me, o = S.o['self'], S.o['tt_mul']
+        d = zi(me.order)
+        if isinstance(res, STT):
+            yield 'TT-result-only-if-some-dim>1', z3.Not(self._all_one(me, o))
+            yield from fresh_result(S, res)
+            yield 'order', zi(res.order) == d
+            yield 'row_dims', same_ints(res.row_dims, me.row_dims, d)
+            yield 'col_dims', same_ints(res.col_dims, o.col_dims, d)
+            yield 'ranks-multiply', FA(0, d + 1, lambda j: lst_get(res.ranks, j) == lst_get(me.ranks, j) * lst_get(o.ranks, j))
+            yield 'kind', FA(0, d, lambda j: lst_get(res.cores, j).cplx == z3.Or(lst_get(me.cores, j).cplx, lst_get(o.cores, j).cplx))
+        else:
+            yield 'scalar-result-only-if-all-dims-1', self._all_one(me, o)
+            yield 'scalar', isinstance(res, SNum)
+
+    def canary(self, S, res):
+        return lst_get(res.ranks, 0) == lst_get(S.o['self'].ranks, 0) * lst_get(S.o['tt_mul'].ranks, 0) + 1 if isinstance(res, STT) else None
+
+    def effect(self, ex, state, A, inst, line):
+        me, o = A['self'].snapshot(), A['tt_mul'].snapshot()
+        for t in (me, o):
+            for l in (t.cores, t.ranks, t.row_dims, t.col_dims):
+                l.to_fn()
+        d = zi(me.order)
+        base = state.mark
+        state.mark = z3.simplify(state.mark + d)
+        cores = SList(state.alloc(), d, kind='arr', fn=lambda j: SArr(
+            [me.ranks.fn(j) * o.ranks.fn(j), me.row_dims.fn(j), o.col_dims.fn(j), me.ranks.fn(j + 1) * o.ranks.fn(j + 1)],
+            z3.Or(me.cores.fn(j).cplx, o.cores.fn(j).cplx), base + j, False, ndim=4, own=True))
+        # the kind of the result (scalar iff every dimension is 1) depends on data: the caller's statement is forked
+        from vt.e1.symexec import ForkRequest
+        key = ('matmul', line, str(me.ref), str(o.ref))
+        dec = state.decisions.get(key)
+        if dec is None:
+            raise ForkRequest(key, self._all_one(me, o))
+        if dec:
+            return SNum('inner', cplx=fresh('inner_cx', 'bool'))
+        return build_tt_from_cores(state, cores, d)
+
+
+@register
+class Dot(MatMul):
+    name, func = 'TT.dot', 'dot'
+
+    def instances(self):
+        return [{'other': 'TT'}]
+
+    def exceptional(self, S):
+        return {}
+
+    def requires(self, S):
+        yield from MatMul.requires(self, S)
+        yield 'dims-match', self._cols_match(S.a['self'], S.a['tt_mul'])
+
+
+@register
+class Concatenate(_Overwritable):
+    name, func = 'TT.concatenate', 'concatenate'
+    props = ('C02', 'C06')
+
+    def instances(self):
+        return [{'overwrite': ow, 'other': o} for ow in (False, True) for o in ('TT', 'list')]
+
+    def defaults(self):
+        return {'overwrite': False}
+
+    def call_inst(self, A):
+        i = _Overwritable.call_inst(self, A)
+        i['other'] = 'TT' if isinstance(A['other'], STT) else 'list'
+        return i
+
+    def setup(self, ex, state, inst):
+        m0 = ex.ctx.mark0
+        if inst['other'] == 'TT':
+            other = mk_tt(state, 'other', m0)
+        else:
+            n = fresh('n')
+            other = SList(fresh('other_ref'), n, fn=sym_elem_fn('arr', state), kind='arr')
+            state.assume(z3.And(other.ref >= 0, other.ref < m0, n >= 1))
+            state.assume(FA(0, n, lambda j: z3.And(lst_get(other, j).buf >= 0, lst_get(other, j).buf < m0, *[s >= 1 for s in lst_get(other, j).shape])))
+        return {'self': mk_tt(state, 'self', m0), 'other': other, 'overwrite': inst['overwrite']}
+
+    def _ocores(self, o):
+        return o.cores if isinstance(o, STT) else o
+
+    def exceptional(self, S):
+        me, o = S.o['self'], S.o['other']
+        d = zi(me.order)
+        oc = self._ocores(o)
+        n = zi(oc.length)
+        mismatch = lst_get(me.ranks, d) != lst_get(oc, 0).shape[0]
+        if isinstance(o, STT):
+            return {'ValueError': mismatch}
+        all4 = FA(0, n, lambda j: zi(lst_get(oc, j).ndim) == 4)
+        chain = FA(0, n - 1, lambda j: lst_get(oc, j).shape[3] == lst_get(oc, j + 1).shape[0])
+        return {'ValueError': z3.Or(z3.Not(all4), z3.Not(chain), mismatch)}
+
+    def ensures(self, S, res):
+        yield from self.common_ensures(S, res)
+        if not isinstance(res, STT):
+            return
+        me, o = S.o['self'], S.o['other']
+        oc = self._ocores(o)
+        d, e = zi(me.order), zi(oc.length)
+        yield 'order', zi(res.order) == d + e
+        yield 'row_dims', FA(0, d + e, lambda j: lst_get(res.row_dims, j) == z3.If(j < d, lst_get(me.row_dims, j), lst_get(oc, j - d).shape[1]))
+        yield 'col_dims', FA(0, d + e, lambda j: lst_get(res.col_dims, j) == z3.If(j < d, lst_get(me.col_dims, j), lst_get(oc, j - d).shape[2]))
+        yield 'ranks', z3.And(FA(0, d + e, lambda j: lst_get(res.ranks, j) == z3.If(j < d, lst_get(me.ranks, j), lst_get(oc, j - d).shape[0])),
+                              lst_get(res.ranks, d + e) == lst_get(oc, e - 1).shape[3])
+        # C06: the appended cores must not share memory with `other` (in-place operations on the result must not reach it)
+        yield 'appended-buffers-fresh', FA(d, d + e, lambda j: lst_get(res.cores, j).buf >= S.mark0)
+
+    def canary(self, S, res):
+        return zi(res.order) == zi(S.o['self'].order) if isinstance(res, STT) else None
+
+
+@register
+class RankTensordot(_Overwritable):
+    name, func = 'TT.rank_tensordot', 'rank_tensordot'
+    props = ('C02', 'C06')
+
+    def instances(self):
+        return [{'overwrite': ow, 'mode': m} for ow in (False, True) for m in ('last', 'first', 'other')]
+
+    def defaults(self):
+        return {'mode': 'last', 'overwrite': False}
+
+    def call_inst(self, A):
+        i = _Overwritable.call_inst(self, A)
+        i['mode'] = A.get('mode', 'last')
+        return i
+
+    def setup(self, ex, state, inst):
+        m0 = ex.ctx.mark0
+        mat = SArr([fresh('m0'), fresh('m1')], fresh('mcx', 'bool'), fresh('mbuf'), fresh('mct', 'bool'))
+        state.assume(z3.And(mat.shape[0] >= 1, mat.shape[1] >= 1, mat.buf >= 0, mat.buf < m0))
+        return {'self': mk_tt(state, 'self', m0), 'matrix': mat, 'mode': {'other': 'middle'}.get(inst['mode'], inst['mode']), 'overwrite': inst['overwrite']}
+
+    def exceptional(self, S):
+        me, mat, mode = S.o['self'], S.a['matrix'], S.a['mode']
+        d = zi(me.order)
+        if mode == 'last':
+            return {'ValueError': lst_get(me.ranks, d) != mat.shape[0]}
+        if mode == 'first':
+            return {'ValueError': lst_get(me.ranks, 0) != mat.shape[1]}
+        return {'ValueError': True}
+
+    def ensures(self, S, res):
+        yield from self.common_ensures(S, res)
+        if not isinstance(res, STT):
+            return
+        me, mat, mode = S.o['self'], S.a['matrix'], S.a['mode']
+        d = zi(me.order)
+        yield 'order', zi(res.order) == d
+        yield 'dims', z3.And(same_ints(res.row_dims, me.row_dims, d), same_ints(res.col_dims, me.col_dims, d))
+        if mode == 'last':
+            yield 'ranks', z3.And(FA(0, d, lambda j: lst_get(res.ranks, j) == lst_get(me.ranks, j)), lst_get(res.ranks, d) == mat.shape[1])
+        else:
+            yield 'ranks', z3.And(FA(1, d + 1, lambda j: lst_get(res.ranks, j) == lst_get(me.ranks, j)), lst_get(res.ranks, 0) == mat.shape[0])
+
+    def canary(self, S, res):
+        return zi(res.order) == zi(S.o['self'].order) + 1 if isinstance(res, STT) else None
+
+
+class _Ctor(Contract):
+    cls = None
+    props = ('C01', 'C06')
+    kindname = 'zeros'
+
+    def instances(self):
+        return [{'ranks': 'int'}, {'ranks': 'list'}]
+
+    def setup(self, ex, state, inst):
+        m0 = ex.ctx.mark0
+        d = fresh('d')
+        state.assume(d >= 1)
+        rd = mk_int_list(state, 'row_dims', d)
+        cd = mk_int_list(state, 'col_dims', d)
+        for l in (rd, cd):
+            state.assume(z3.And(l.ref >= 0, l.ref < m0))
+            state.assume(FA(0, d, lambda j, l=l: lst_get(l, j) >= 1))
+        if inst['ranks'] == 'int':
+            rk = fresh('r')
+            state.assume(rk >= 1)
+        else:
+            rk = mk_int_list(state, 'ranks', d + 1)
+            state.assume(z3.And(rk.ref >= 0, rk.ref < m0))
+            state.assume(FA(0, d + 1, lambda j: lst_get(rk, j) >= 1))
+        return {'row_dims': rd, 'col_dims': cd, 'ranks': rk}
+
+    def _rk(self, S, j):
+        rk, d = S.o['ranks'], zi(S.o['row_dims'].length)
+        if isinstance(rk, SList):
+            return lst_get(rk, j)
+        return z3.If(z3.Or(j <= 0, j >= d), z3.IntVal(1), zi(rk))
+
+    def ensures(self, S, res):
+        yield from fresh_result(S, res)
+        if not isinstance(res, STT):
+            return
+        rd, cd = S.o['row_dims'], S.o['col_dims']
+        d = zi(rd.length)
+        yield 'order', zi(res.order) == d
+        yield 'row_dims', same_ints(res.row_dims, rd, d)
+        yield 'col_dims', same_ints(res.col_dims, cd, d)
+        yield 'ranks', FA(0, d + 1, lambda j: lst_get(res.ranks, j) == self._rk(S, j))
+        yield 'real', FA(0, d, lambda j: z3.Not(lst_get(res.cores, j).cplx))
+
+    def canary(self, S, res):
+        return zi(res.order) == zi(S.o['row_dims'].length) + 1 if isinstance(res, STT) else None
+
+    def defaults(self):
+        return {'ranks': 1}
+
+    def effect(self, ex, state, A, inst, line):
+        rd, cd, rk = A['row_dims'].snapshot(), A['col_dims'].snapshot(), A.get('ranks', 1)
+        rd.to_fn(), cd.to_fn()
+        d = zi(rd.length)
+        if isinstance(rk, SList):
+            rks = rk.snapshot()
+            rks.to_fn()
+            rf = rks.fn
+        else:
+            rf = lambda j: z3.If(z3.Or(j <= 0, j >= d), z3.IntVal(1), zi(rk))  # noqa
+        base = state.mark
+        state.mark = z3.simplify(state.mark + d)
+        cores = SList(state.alloc(), d, kind='arr', fn=lambda j: SArr([rf(j), rd.fn(j), cd.fn(j), rf(j + 1)], False, base + j, True, ndim=4, own=True))
+        return build_tt_from_cores(state, cores, d)
+
+
+@register
+class Zeros(_Ctor):
+    name, func = 'fn:zeros', 'zeros'
+
+
+@register
+class Ones(_Ctor):
+    name, func = 'fn:ones', 'ones'
+
+
+@register
+class Eye(Contract):
+    name, func, cls = 'fn:eye', 'eye', None
+    props = ('C01', 'C06')
+
+    def setup(self, ex, state, inst):
+        m0 = ex.ctx.mark0
+        d = fresh('d')
+        state.assume(d >= 1)
+        dims = mk_int_list(state, 'dims', d)
+        state.assume(z3.And(dims.ref >= 0, dims.ref < m0))
+        state.assume(FA(0, d, lambda j: lst_get(dims, j) >= 1))
+        return {'dims': dims}
+
+    def ensures(self, S, res):
+        yield from fresh_result(S, res)
+        if not isinstance(res, STT):
+            return
+        dims = S.o['dims']
+        d = zi(dims.length)
+        yield 'order', zi(res.order) == d
+        yield 'dims', z3.And(same_ints(res.row_dims, dims, d), same_ints(res.col_dims, dims, d))
+        yield 'ranks-1', FA(0, d + 1, lambda j: lst_get(res.ranks, j) == 1)
+
+    def canary(self, S, res):
+        return lst_get(res.ranks, 0) == 2 if isinstance(res, STT) else None
+
+    def invariant(self, key, inst):
+        if key != 'i in range(len(dims))':
+            return None
+
+        def inv(V, i, k):
+            cores, dims = V['cores'], V.old('dims')
+            d = zi(dims.length)
+            yield 'cores', z3.And(zi(cores.length) == d, cores.ref >= V.mark0, FA(0, d, lambda j: z3.And(
+                core_shape_ok(lst_get(cores, j), 1, lst_get(dims, j), lst_get(dims, j), 1), lst_get(cores, j).buf >= V.mark0, z3.Not(lst_get(cores, j).cplx))))
+        return inv
+
+    def effect(self, ex, state, A, inst, line):
+        dims = A['dims'].snapshot()
+        dims.to_fn()
+        d = zi(dims.length)
+        base = state.mark
+        state.mark = z3.simplify(state.mark + d)
+        cores = SList(state.alloc(), d, kind='arr', fn=lambda j: SArr([1, dims.fn(j), dims.fn(j), 1], False, base + j, True, ndim=4, own=True))
+        return build_tt_from_cores(state, cores, d)
